@@ -211,3 +211,103 @@ theorem gone_stays_gone (Mof : Nat → EventNo → Merger ρ σ ο ε) (T : Nat)
       · exact Or.inr hq
 
 end Nri.Dispatch
+
+namespace Nri.Dispatch
+open Nri.Events
+variable {ρ σ ο ε : Type}
+
+/-- the log only grows, at the front -/
+theorem run_log_grows (Mof : Nat → EventNo → Merger ρ σ ο ε) (T : Nat) (h : List (Ev ρ))
+    (s s' : LState ρ ο ε) (hr : run? Mof T s h = some s') : ∃ new, s'.log = new ++ s.log := by
+  obtain ⟨new, hl, _⟩ := handlerLog_projection Mof T h s s' hr
+  exact ⟨new, hl⟩
+
+theorem run_append (Mof : Nat → EventNo → Merger ρ σ ο ε) (T : Nat) (h1 h2 : List (Ev ρ))
+    (s : LState ρ ο ε) :
+    run? Mof T s (h1 ++ h2) = (run? Mof T s h1).bind fun s1 => run? Mof T s1 h2 := by
+  induction h1 generalizing s with
+  | nil => simp [run?]
+  | cons e rest ih =>
+    simp only [List.cons_append, run?]
+    split
+    · simp
+    · exact ih _
+
+/-- a relay recorded before a cut of the history stands, in the common order, before every
+    relay made after the cut -/
+theorem order_respects_cut (Mof : Nat → EventNo → Merger ρ σ ο ε) (T : Nat) (h2 : List (Ev ρ))
+    (s1 s : LState ρ ο ε) (hr : run? Mof T s1 h2 = some s)
+    (d d' : Done ρ ο ε) (hd : d ∈ s1.log) (hd' : d' ∈ s.log) (hnew : d' ∉ s1.log) :
+    [d, d'].Sublist (order s) := by
+  obtain ⟨new, hl⟩ := run_log_grows Mof T h2 s1 s hr
+  have hin : d' ∈ new := by
+    rw [hl] at hd'
+    rcases List.mem_append.1 hd' with h | h
+    · exact h
+    · exact absurd h hnew
+  simp only [order, hl, List.reverse_append]
+  have h1 : [d].Sublist s1.log.reverse := List.singleton_sublist.2 (List.mem_reverse.2 hd)
+  have h2' : [d'].Sublist new.reverse := List.singleton_sublist.2 (List.mem_reverse.2 hin)
+  exact List.Sublist.append h1 h2'
+
+/-! ### failing plugins might as well not be there -/
+
+/-- the call of this entry fails fatally (and the plugin is subscribed) -/
+def failsFatally (T : Nat) (ev : EventNo) (pc : Plugin × Call ρ) : Bool :=
+  subscribed ev pc.1 && isFatal (effOut T pc.1 pc.2).1
+
+theorem okResponses_filter_fatal (T ev) (pcs : List (Plugin × Call ρ)) :
+    okResponses T ev (pcs.filter fun pc => !failsFatally T ev pc) = okResponses T ev pcs := by
+  induction pcs with
+  | nil => rfl
+  | cons pc rest ih =>
+    obtain ⟨p, c⟩ := pc
+    rw [List.filter_cons]
+    cases hs : subscribed ev p with
+    | false =>
+      have hf : failsFatally T ev (p, c) = false := by simp [failsFatally, hs]
+      simp only [hf, Bool.not_false, if_true, okResponses, hs, Bool.false_eq_true, if_false]
+      exact ih
+    | true =>
+      cases ho : (effOut T p c).1 with
+      | fatal f =>
+        have hf : failsFatally T ev (p, c) = true := by simp [failsFatally, hs, ho, isFatal]
+        simp only [hf, Bool.not_true, Bool.false_eq_true, if_false, okResponses, hs, if_true, ho]
+        exact ih
+      | ok r =>
+        have hf : failsFatally T ev (p, c) = false := by simp [failsFatally, hs, ho, isFatal]
+        simp only [hf, Bool.not_false, if_true, okResponses, hs, ho]
+        rw [ih]
+      | handlerErr m =>
+        have hf : failsFatally T ev (p, c) = false := by simp [failsFatally, hs, ho, isFatal]
+        simp only [hf, Bool.not_false, if_true, okResponses, hs, ho]
+        exact ih
+
+theorem hasVeto_filter_fatal (T ev) (pcs : List (Plugin × Call ρ)) :
+    hasVeto T ev (pcs.filter fun pc => !failsFatally T ev pc) = hasVeto T ev pcs := by
+  induction pcs with
+  | nil => rfl
+  | cons pc rest ih =>
+    obtain ⟨p, c⟩ := pc
+    rw [List.filter_cons]
+    cases hs : subscribed ev p with
+    | false =>
+      have hf : failsFatally T ev (p, c) = false := by simp [failsFatally, hs]
+      simp only [hf, Bool.not_false, if_true, hasVeto_cons, hs, Bool.false_and, Bool.false_or]
+      exact ih
+    | true =>
+      cases ho : (effOut T p c).1 with
+      | fatal f =>
+        have hf : failsFatally T ev (p, c) = true := by simp [failsFatally, hs, ho, isFatal]
+        simp only [hf, Bool.not_true, Bool.false_eq_true, if_false, hasVeto_cons, hs, ho, isVeto,
+          Bool.and_false, Bool.false_or]
+        exact ih
+      | ok r =>
+        have hf : failsFatally T ev (p, c) = false := by simp [failsFatally, hs, ho, isFatal]
+        simp only [hf, Bool.not_false, if_true, hasVeto_cons, hs, ho, isVeto, Bool.and_false, Bool.false_or]
+        exact ih
+      | handlerErr m =>
+        have hf : failsFatally T ev (p, c) = false := by simp [failsFatally, hs, ho, isFatal]
+        simp only [hf, Bool.not_false, if_true, hasVeto_cons, hs, ho, isVeto, Bool.and_true, Bool.true_or]
+
+end Nri.Dispatch
